@@ -4,6 +4,20 @@ import ShVerif.Proofs.C20Num
 -/
 namespace ShVerif.C20
 
+@[simp] theorem andThen_ok (v : Int) (env : Env) (f : Int → Env → Res × Env) :
+    andThen (.ok v, env) f = f v env := rfl
+@[simp] theorem andThen_err (er : Err) (env : Env) (f : Int → Env → Res × Env) :
+    andThen (.err er, env) f = (.err er, env) := rfl
+@[simp] theorem andThen_panic (env : Env) (f : Int → Env → Res × Env) :
+    andThen (.panic, env) f = (.panic, env) := rfl
+
+theorem andThen_assoc (p : Res × Env) (f g : Int → Env → Res × Env) :
+    andThen (andThen p f) g = andThen p (fun v e => andThen (f v e) g) := by
+  obtain ⟨r, env⟩ := p
+  cases r <;> rfl
+
+/-! ### status rules of the runner -/
+
 theorem status_arithCmd_core (env : Env) (e : Expr) :
     (arithCmdStatus env e).1 = 0 ↔ ∃ v, (evalArith env e).1 = .ok v ∧ v ≠ 0 := by
   unfold arithCmdStatus runnerArithm
@@ -17,28 +31,41 @@ theorem status_arithCmd_core (env : Env) (e : Expr) :
     | err er => simp
     | panic => simp
 
-theorem letLoop_append (env : Env) (val : Int) (es : List Expr) (e : Expr) :
-    letLoop env val (es ++ [e]) = ((runnerArithm (letLoop env val es).2 e).1,
-      (runnerArithm (letLoop env val es).2 e).2) := by
-  induction es generalizing env val with
-  | nil => simp [letLoop]
-  | cons a rest ih => simp only [List.cons_append, letLoop]; exact ih _ _
-
-theorem status_let_core (env : Env) (es : List Expr) (e : Expr) :
-    (letStatus env (es ++ [e])).1 = 0 ↔
-      ∃ v, (evalArith (letLoop env 0 es).2 e).1 = .ok v ∧ v ≠ 0 := by
-  unfold letStatus
-  rw [letLoop_append]
-  unfold runnerArithm
-  cases h : evalArith (letLoop env 0 es).2 e with
+theorem status_let_single_core (env : Env) (e : Expr) :
+    (letStatus env [e]).1 = 0 ↔ ∃ v, (evalArith env e).1 = .ok v ∧ v ≠ 0 := by
+  unfold letStatus letLoop runnerArithm
+  cases h : evalArith env e with
   | mk r env' =>
     cases r with
     | ok v =>
       by_cases hv : v = 0
-      · simp [hv]
-      · simp [hv]
+      · simp [hv, letLoop]
+      · simp [hv, letLoop]
     | err er => simp
     | panic => simp
+
+/-- `let` stops at the first argument that fails, with status 1 and the environment of that
+    moment. -/
+theorem status_let_error_core (env : Env) (e : Expr) (rest : List Expr)
+    (h : ∀ v, (evalArith env e).1 ≠ .ok v) :
+    letStatus env (e :: rest) = (1, (evalArith env e).2) := by
+  unfold letStatus letLoop runnerArithm
+  cases hh : evalArith env e with
+  | mk r env' =>
+    rw [hh] at h
+    cases r with
+    | ok v => exact absurd rfl (h v)
+    | err er => simp
+    | panic => simp
+
+/-- … and otherwise goes on with the next argument in the environment the previous one left. -/
+theorem status_let_step_core (env env' : Env) (e e2 : Expr) (rest : List Expr) (v : Int)
+    (h : evalArith env e = (.ok v, env')) :
+    letStatus env (e :: e2 :: rest) = letStatus env' (e2 :: rest) := by
+  unfold letStatus
+  rw [letLoop]
+  unfold runnerArithm
+  rw [h]
 
 theorem errors_iff_binArit_core (op : BinOp) (x y : Int) (hop : plainBin op = true) :
     (∃ err, binArit op x y = .err err) ↔
@@ -47,13 +74,6 @@ theorem errors_iff_binArit_core (op : BinOp) (x y : Int) (hop : plainBin op = tr
   · by_cases h : y = 0 <;> simp [h]
   · by_cases h : y = 0 <;> simp [h]
   · by_cases h : y < 0 <;> simp [h]
-
-@[simp] theorem andThen_ok (v : Int) (env : Env) (f : Int → Env → Res × Env) :
-    andThen (.ok v, env) f = f v env := rfl
-@[simp] theorem andThen_err (er : Err) (env : Env) (f : Int → Env → Res × Env) :
-    andThen (.err er, env) f = (.err er, env) := rfl
-@[simp] theorem andThen_panic (env : Env) (f : Int → Env → Res × Env) :
-    andThen (.panic, env) f = (.panic, env) := rfl
 
 theorem andThen_ne_panic {p : Res × Env} {f : Int → Env → Res × Env}
     (hp : p.1 ≠ .panic) (hf : ∀ v env, (f v env).1 ≠ .panic) : (andThen p f).1 ≠ .panic := by
@@ -76,24 +96,39 @@ theorem binArit_ne_panic (op : BinOp) (x y : Int) : binArit op x y ≠ .panic :=
 theorem isAssign_iff (op : BinOp) : isAssign op = true ↔ (op = .assgn ∨ (assignOp op).isSome = true) := by
   simp [isAssign]
 
-theorem no_panic_both (e : Expr) :
-    (∀ env, WF e = true → (evalArith env e).1 ≠ .panic) ∧
-    (∀ env cond, WFColon e = true → (evalTernBranch env cond e).1 ≠ .panic) := by
+theorem evalWord_ne_panic {deeper : Env → Bytes → Res × Env}
+    (hd : ∀ env s, (deeper env s).1 ≠ .panic) (env : Env) (w : Bytes) :
+    (evalWord deeper env w).1 ≠ .panic := by
+  unfold evalWord
+  simp only []
+  split
+  · exact hd _ _
+  · simp
+
+/-- The only Go panic site left in `Arithm` (the type assertion of the conditional) is not reachable
+    on trees of bash's grammar, at any nesting level whose nested evaluations do not panic. -/
+theorem no_panic_both {deeper : Env → Bytes → Res × Env}
+    (hd : ∀ env s, (deeper env s).1 ≠ .panic) (e : Expr) :
+    (∀ env, WF e = true → (evalWith deeper env e).1 ≠ .panic) ∧
+    (∀ env cond, WFColon e = true → (evalTernBranch deeper env cond e).1 ≠ .panic) := by
   induction e with
-  | word w => exact ⟨fun env _ => by simp [evalArith], fun env c h => by simp [WFColon] at h⟩
+  | word w =>
+    exact ⟨fun env _ => by rw [evalWith]; exact evalWord_ne_panic hd env w,
+      fun env c h => by simp [WFColon] at h⟩
   | paren x ih =>
     refine ⟨fun env hwf => ?_, fun env c h => by simp [WFColon] at h⟩
-    simp only [evalArith]; exact ih.1 env (by simpa [WF] using hwf)
+    simp only [evalWith]; exact ih.1 env (by simpa [WF] using hwf)
   | unary op post x ih =>
     refine ⟨fun env hwf => ?_, fun env c h => by simp [WFColon] at h⟩
     by_cases hinc : op = .inc ∨ op = .dec
     · simp only [WF, hinc, if_true] at hwf
       obtain ⟨n, rfl, hvn⟩ := isNameWord_elim hwf
-      rw [evalArith]
+      rw [evalWith]
       simp only [hinc, if_true, wordOf_name hvn]
+      refine andThen_ne_panic (evalWord_ne_panic hd _ _) (fun _ _ => ?_)
       exact andThen_ne_panic (setVar_ne_panic _ _ _) (fun _ _ => by simp)
     · simp only [WF, hinc, if_false, Bool.and_eq_true] at hwf
-      rw [evalArith]
+      rw [evalWith]
       simp only [hinc, if_false]
       refine andThen_ne_panic (ih.1 env hwf.2) (fun v env' => ?_)
       split <;> simp
@@ -104,20 +139,21 @@ theorem no_panic_both (e : Expr) :
       · have hass' := (isAssign_iff op).1 hass
         simp only [WF, hass', if_true, Bool.and_eq_true] at hwf
         obtain ⟨n, rfl, hvn⟩ := isNameWord_elim hwf.1
-        rw [evalArith]
+        rw [evalWith]
         simp only [hass, if_true, wordOf_name hvn]
-        refine andThen_ne_panic (ihy.1 env hwf.2) (fun v env' => ?_)
         split
-        · exact setVar_ne_panic _ _ _
-        · split
+        · exact andThen_ne_panic (ihy.1 env hwf.2) (fun _ _ => setVar_ne_panic _ _ _)
+        · refine andThen_ne_panic (evalWord_ne_panic hd _ _) (fun val env1 => ?_)
+          refine andThen_ne_panic (ihy.1 env1 hwf.2) (fun arg env' => ?_)
+          split
           · exact setVar_ne_panic _ _ _
-          · rename_i e hne _
+          · rename_i e hne
             intro h
             exact binArit_ne_panic _ _ _ (by simpa using h)
       · have hass' : ¬ (op = .assgn ∨ (assignOp op).isSome = true) :=
           fun h => hass ((isAssign_iff op).2 h)
         simp only [WF, hass', if_false] at hwf
-        rw [evalArith]
+        rw [evalWith]
         simp only [hass, if_false]
         by_cases ht : op = .ternQuest
         · simp only [ht, if_true, Bool.and_eq_true] at hwf ⊢
@@ -141,9 +177,10 @@ theorem no_panic_both (e : Expr) :
       · exact ihx.1 env h.1.2
       · exact ihy.1 env h.2
 
-theorem no_panic_core (env : Env) (e : Expr) (hwf : WF e = true) : (evalArith env e).1 ≠ .panic :=
-  (no_panic_both e).1 env hwf
-
+theorem no_panic_core {deeper : Env → Bytes → Res × Env}
+    (hd : ∀ env s, (deeper env s).1 ≠ .panic) (env : Env) (e : Expr) (hwf : WF e = true) :
+    (evalWith deeper env e).1 ≠ .panic :=
+  (no_panic_both hd e).1 env hwf
 
 /-! ### assignment operators -/
 
@@ -153,59 +190,53 @@ theorem chase_not_name (get : Bytes → Bytes) (k : Nat) (s : Bytes) (h : validN
 
 theorem atoi_nil : atoi [] = 0 := by decide
 
-theorem evalArith_word (env : Env) (w : Bytes) :
-    evalArith env (.word w) = (.ok (atoi (chase env.get 99 w)), env) := by
-  rw [evalArith]; rfl
-
 theorem chase_succ (get : Bytes → Bytes) (k : Nat) (s : Bytes) :
     chase get (k + 1) s =
       if validName s then (if get s = [] then s else chase get k (get s)) else s := by
   rw [chase]
 
-/-- A name whose value is not itself a name: the word rule reads it with `atoi`, like `op=`. -/
-theorem evalArith_word_lval (env : Env) (x : Bytes) (hx : validName x = true)
-    (hv : validName (env.get x) = false) :
-    evalArith env (.word x) = (.ok (atoi (env.get x)), env) := by
-  rw [evalArith_word, show (99 : Nat) = 98 + 1 from rfl, chase_succ, if_pos hx]
-  by_cases he : env.get x = []
-  · rw [if_pos he, he, atoi_name hx, atoi_nil]
-  · rw [if_neg he, chase_not_name _ _ _ hv]
-
 theorem assignOp_plain {op aop : BinOp} (h : assignOp op = some aop) :
     isAssign op = true ∧ isAssign aop = false ∧ aop ≠ .ternQuest ∧ ¬ (aop = .andL ∨ aop = .orL) := by
   cases op <;> simp [assignOp] at h <;> subst h <;> decide
 
-theorem assign_ops_core (env : Env) (op aop : BinOp) (x : Bytes) (e : Expr)
-    (hop : assignOp op = some aop) (hx : validName x = true)
-    (hv : validName (env.get x) = false) :
-    evalArith env (.binary op (.word x) e) =
-      evalArith env (.binary .assgn (.word x) (.binary aop (.word x) e)) := by
+/-- `x op= e` ≡ `x = x op e`, for every word `x`, environment and nesting level. -/
+theorem assign_ops_with (deeper : Env → Bytes → Res × Env) (env : Env) (op aop : BinOp) (x : Bytes)
+    (e : Expr) (hop : assignOp op = some aop) :
+    evalWith deeper env (.binary op (.word x) e) =
+      evalWith deeper env (.binary .assgn (.word x) (.binary aop (.word x) e)) := by
   obtain ⟨h1, h2, h3, h4⟩ := assignOp_plain hop
-  have hL : evalArith env (.binary op (.word x) e) =
-      andThen (evalArith env e) fun arg env' =>
-        match binArit aop (atoi (env.get x)) arg with
-        | .ok v => setVar env' x v
-        | r => (r, env') := by
-    rw [evalArith]; simp only [h1, if_true, wordOf_name hx, hop]; rfl
-  have hInner : evalArith env (.binary aop (.word x) e) =
-      andThen (evalArith env e) fun right env'' => (binArit aop (atoi (env.get x)) right, env'') := by
-    rw [evalArith]
-    simp only [h2, Bool.false_eq_true, if_false, h3, h4, evalArith_word_lval env x hx hv, andThen_ok]
-  have hR : evalArith env (.binary .assgn (.word x) (.binary aop (.word x) e)) =
-      andThen (evalArith env (.binary aop (.word x) e)) fun arg env' => setVar env' x arg := by
-    rw [evalArith]
-    simp [isAssign, wordOf_name hx, assignOp]
-  rw [hL, hR, hInner]
-  cases hy : evalArith env e with
-  | mk r env1 =>
-    cases r with
-    | ok arg =>
-      simp only [andThen_ok]
-      cases hb : binArit aop (atoi (env.get x)) arg with
-      | ok v => simp
-      | err er => simp
-      | panic => simp
-    | err er => simp
-    | panic => simp
+  by_cases hx : x = []
+  · subst hx
+    have e1 : evalWith deeper env (.binary op (.word []) e) = (.err .unsupTarget, env) := by
+      rw [evalWith]; simp only [h1, if_true, wordOf]
+    have e2 : evalWith deeper env (.binary .assgn (.word []) (.binary aop (.word []) e)) =
+        (.err .unsupTarget, env) := by
+      rw [evalWith]; simp [isAssign, wordOf]
+    rw [e1, e2]
+  · have hw : wordOf (.word x) = some x := by simp [wordOf, hx]
+    have hL : evalWith deeper env (.binary op (.word x) e) =
+        andThen (evalWord deeper env x) fun val env1 =>
+          andThen (evalWith deeper env1 e) fun arg env' =>
+            match binArit aop val arg with
+            | .ok v => setVar env' x v
+            | r => (r, env') := by
+      rw [evalWith]; simp only [h1, if_true, hw, hop]; rfl
+    have hInner : evalWith deeper env (.binary aop (.word x) e) =
+        andThen (evalWord deeper env x) fun left env1 =>
+          andThen (evalWith deeper env1 e) fun right env'' => (binArit aop left right, env'') := by
+      rw [evalWith]
+      simp only [h2, Bool.false_eq_true, if_false, h3, h4]
+      rw [evalWith]
+    have hR : evalWith deeper env (.binary .assgn (.word x) (.binary aop (.word x) e)) =
+        andThen (evalWith deeper env (.binary aop (.word x) e)) fun arg env' => setVar env' x arg := by
+      rw [evalWith]
+      simp [isAssign, hw, assignOp]
+    rw [hL, hR, hInner, andThen_assoc]
+    congr 1
+    funext val env1
+    rw [andThen_assoc]
+    congr 1
+    funext arg env'
+    cases hb : binArit aop val arg <;> simp
 
 end ShVerif.C20
